@@ -887,6 +887,11 @@ func parseShapes(csv *csv.File) []Shape {
 			continue
 		}
 
+		if shapePtLat == nil || shapePtLon == nil || shapePtSequence == nil {
+			log.Printf("Skipping shape because of invalid lat, lon or sequence")
+			continue
+		}
+
 		shapeIDToRowData[shapeID] = append(shapeIDToRowData[shapeID], ShapeRow{
 			ShapePtLat:        *shapePtLat,
 			ShapePtLon:        *shapePtLon,
